@@ -66,6 +66,14 @@ Proof.
   exact (canon_tree licenses exceptions spdx_table_ok _ _ A C).
 Qed.
 
+Lemma finalb_tree_every_parse s o : (canonicalize s = Ok o \/ canonicalize s = Limit o) ->
+  forall e, map classify (spdx_tokens s) = expr_tokens e ->
+            map classify (spdx_tokens o) = expr_tokens (canon_expr licenses exceptions e).
+Proof.
+  intros H. destruct (finalb_accepted s o H) as (_ & out & C & _ & -> & _ & _).
+  exact (canon_tree_every_parse licenses exceptions spdx_table_ok _ _ C).
+Qed.
+
 (* idempotence in the interpreter-dependent band too *)
 Lemma finalb_idempotent_limit s o : canonicalize s = Limit o -> canonicalize o = Limit o.
 Proof. intros H. rewrite <- H. apply (canon_idempotent _ _ spdx_table_ok s o). now right. Qed.
